@@ -5,6 +5,7 @@ import Driver.Gen
 import Driver.Parse
 import Driver.Proc
 import Driver.Fill
+import Driver.Engine
 
 /-!
 Line-protocol driver: one case per input line, `tag \t fields… \t observed`, one answer per line,
@@ -27,6 +28,9 @@ def dispatch (line : String) : String :=
   | "ptcpflags" :: rest => (handlePTCPFlags rest).getD "BAD-CASE\t0"
   | "pportsfile" :: rest => (handlePPortsFile rest).getD "BAD-CASE\t0"
   | "pexclfile" :: rest => (handlePExclFile rest).getD "BAD-CASE\t0"
+  | "engine" :: rest => (handleEngine rest).getD "BAD-CASE\t0"
+  | "exitdelay" :: rest => (handleExitDelay rest).getD "BAD-CASE\t0"
+  | "cancel" :: rest => (handleCancel rest).getD "BAD-CASE\t0"
   | _ => "BAD-TAG\t0"
 
 partial def loop (h : IO.FS.Stream) (out : IO.FS.Stream) : IO Unit := do
